@@ -1,4 +1,5 @@
 import YatimlModel.Model.Process
+import YatimlModel.Model.Represent
 /-!
 # C10 — seasoning and recognition hooks run once, own class only, bases first
 -/
@@ -140,5 +141,84 @@ theorem C10_recognize_own_dict_only (env env' : Env) (hext : env.ext = env'.ext)
     recUserClass env rec n d = recUserClass env' rec n d := by
   unfold recUserClass
   rw [hext]
+
+/-! ### the dump side: `_yatiml_sweeten` -/
+
+/-- the sweeten hooks the documented rule runs for class `d` when dumping -/
+def sweetChain (env : DumpEnv) : Nat → DumpClass → List String
+  | 0, _ => []
+  | fuel + 1, d =>
+    ((d.bases.filterMap (fun b => env.find b)).flatMap (sweetChain env fuel))
+      ++ (match d.sweetenOwn with | some _ => [d.name] | none => [])
+
+theorem sweeten_foldl_trace (env : DumpEnv) (fuel : Nat)
+    (ih : ∀ n d n' tr, sweeten env fuel n d = .ok (n', tr) → tr = sweetChain env fuel d) :
+    ∀ (bases : List DumpClass) (n0 : Node) (t0 : List String) (n' : Node) (tr : List String),
+      bases.foldl (fun (acc : Except DumpErr (Node × List String)) b =>
+        match acc with
+        | .error e => .error e
+        | .ok (n', tr) =>
+          match sweeten env fuel n' b with
+          | .error e => .error e
+          | .ok (n'', tr') => .ok (n'', tr ++ tr')) (.ok (n0, t0)) = .ok (n', tr) →
+      tr = t0 ++ bases.flatMap (sweetChain env fuel) := by
+  intro bases
+  induction bases with
+  | nil => intro n0 t0 n' tr h; simp at h; simp [h.2]
+  | cons b bs ihb =>
+    intro n0 t0 n' tr h
+    simp only [List.foldl_cons] at h
+    cases hs : sweeten env fuel n0 b with
+    | error e =>
+      rw [hs] at h
+      have : ∀ (l : List DumpClass), l.foldl (fun (acc : Except DumpErr (Node × List String)) b =>
+          match acc with
+          | .error e => .error e
+          | .ok (n', tr) =>
+            match sweeten env fuel n' b with
+            | .error e => .error e
+            | .ok (n'', tr') => .ok (n'', tr ++ tr')) (.error e) = .error e := by
+        intro l; induction l with
+        | nil => rfl
+        | cons x xs ihx => simpa using ihx
+      rw [this] at h
+      cases h
+    | ok r =>
+      obtain ⟨n1, t1⟩ := r
+      rw [hs] at h
+      have h1 := ih n0 b n1 t1 hs
+      have := ihb n1 (t0 ++ t1) n' tr h
+      rw [this, h1]
+      simp [List.append_assoc]
+
+/-- **Sweeten: each once, bases first, own class only.**  When sweetening the node of an object of
+class `d` succeeds, the hooks that ran are exactly the chain of `d`: every `_yatiml_sweeten` defined in
+the body of a base that has a representer (bases first) and of `d` itself, each once — whatever the hooks
+do to the node.  (For plain classes; the enum / string-like representers are the known finding F14.) -/
+theorem C10_sweeten_chain (env : DumpEnv) : ∀ (fuel : Nat) (n : Node) (d : DumpClass) (n' : Node)
+    (tr : List String), sweeten env fuel n d = .ok (n', tr) → tr = sweetChain env fuel d := by
+  intro fuel
+  induction fuel with
+  | zero => intro n d n' tr h; simp [sweeten] at h
+  | succ fuel ih =>
+    intro n d n' tr h
+    unfold sweeten at h
+    dsimp only at h
+    split at h
+    · cases h
+    · rename_i n1 t1 hb
+      have hb' := sweeten_foldl_trace env fuel ih _ n [] n1 t1 hb
+      simp only [List.nil_append] at hb'
+      split at h
+      · rename_i hs
+        simp only [Except.ok.injEq, Prod.mk.injEq] at h
+        rw [← h.2, hb']
+        simp [sweetChain, hs]
+      · rename_i prog hs
+        split at h
+        · cases h
+        · simp only [Except.ok.injEq, Prod.mk.injEq] at h
+          rw [← h.2, hb']
+          simp [sweetChain, hs]
 
 end YatimlModel.C10
